@@ -92,7 +92,9 @@ def gen_exportable(rng):
         params = [copy.deepcopy(v) for v in nf_cfg.values()]
         if use_lumi and "lumi" in declared:
             l0 = gen._round(rng.choice([1.0, 1.2, 0.85, 2.5, 36.1]), 3)
-            params.append({"name": "lumi", "auxdata": [l0], "sigmas": [gen._round(rng.uniform(0.01, 0.06) * l0, 5)], "inits": [l0],
+            # the fit starting value need not be the measured luminosity (the XML carries only the latter)
+            i0 = l0 if rng.random() < 0.5 else gen._round(l0 * rng.uniform(0.9, 1.1), 4)
+            params.append({"name": "lumi", "auxdata": [l0], "sigmas": [gen._round(rng.uniform(0.01, 0.06) * l0, 5)], "inits": [i0],
                            "bounds": [[gen._round(0.5 * l0, 4), gen._round(1.5 * l0, 4)]], "fixed": rng.random() < 0.3})
         for n in scalars:
             if rng.random() < 0.25:
@@ -227,8 +229,14 @@ def likelihood_problems(orig, back, mname, rng, shard):
         ao = c16.aux_by_name(mo, rng)
         if k == 2:
             obs = {n: [float(gen.poisson_draw(rng, max(v, 1.0))) for v in d] for n, d in obs.items()}
-        pb = {mp[n]: v for n, v in po.items()}
-        ab = {mp[n]: v for n, v in ao.items()}
+        if k == 1:
+            # the auxiliary data each model itself reports (what Workspace.data would use)
+            ao = {n: [float(a) for a in co.param_set(n).auxdata] for n in co.auxdata_order}
+            pb = {mp[n]: v for n, v in po.items()}
+            ab = {mp[n]: [float(a) for a in cb.param_set(mp[n]).auxdata] for n in co.auxdata_order}
+        else:
+            pb = {mp[n]: v for n, v in po.items()}
+            ab = {mp[n]: v for n, v in ao.items()}
         fo = c16.main_and_constraint(mo, po, obs, ao)[2]
         fb = c16.main_and_constraint(mb, pb, obs, ab)[2]
         if not math.isfinite(fo):
